@@ -570,9 +570,135 @@ def pointless_oracle(ctx):
     return s
 
 
+# ---------------------------------------------------------------------------- parsing.safe_callable_names: the fixpoint over function definitions
+
+def gen_callgraph_module(r):
+    """a module of small functions that call each other and builtins, with redefinitions, rebinding assignments, imports and classes"""
+    names = ["f", "g", "h", "k", "m", "helper", "len", "format", "abs"]
+    n = r.randint(1, 6)
+    lines = []
+    defs = [r.choice(names) for _ in range(n)]
+    for name in defs:
+        body = []
+        for _ in range(r.randint(1, 3)):
+            callee = r.choice(names + ["abs", "len", "print", "sorted", "undefined_fn"])
+            k = r.random()
+            if k < 0.35:
+                body.append(f"return {callee}(x)")
+            elif k < 0.5:
+                body.append(f"{callee}(x)")
+            elif k < 0.6:
+                body.append(f"y = {callee}(x)")
+            elif k < 0.7:
+                body.append(f"if x:\n        return {callee}({r.choice(names)}(x))")
+            elif k < 0.78:
+                body.append(f"return sorted(x, key={callee})")
+            elif k < 0.86:
+                body.append("return x + 1")
+            elif k < 0.93:
+                body.append(f"return [{callee}(v) for v in x]")
+            else:
+                body.append(f"raise ValueError({callee}(x))")
+        lines.append(f"def {name}(x):\n" + "".join(f"    {b}\n" for b in body) + "\n")
+    extra = r.random()
+    if extra < 0.15:
+        lines.append(f"{r.choice(defs)} = abs\n")
+    elif extra < 0.3:
+        lines.insert(0, f"from lib import {r.choice(names)}\n")
+    elif extra < 0.4:
+        lines.append(f"class {r.choice(['Box', 'len', 'format'])}:\n    pass\n")
+    lines.append(f"{r.choice(defs)}(1)\nprint('end')\n")
+    return "\n".join(lines)
+
+
+def summarise_module(src):
+    """the summary the model works on, computed with the real has_side_effect / is_blocking: per definition its name, whether the statements that count
+    have an effect whatever the whitelist, and the names whose absence from the whitelist makes them effectful"""
+    import builtins
+    import itertools
+
+    from pyrefact import constants, core
+
+    tree = ast.parse(src)
+    all_names = {n.id for n in ast.walk(tree) if isinstance(n, ast.Name)} | set(constants.SAFE_CALLABLES) | set(dir(builtins))
+    defs = []
+    checks = []
+    for node in ast.walk(tree):  # core.walk order is what the real function uses
+        pass
+    function_defs = list(core.walk(tree, (ast.FunctionDef, ast.AsyncFunctionDef)))
+    for node in function_defs:
+        counted = []
+        for child in node.body:
+            if core.is_blocking(child):
+                break
+            counted.append(child)
+        counted += [c.value for c in core.walk(node, ast.Return)]
+        counted = [c for c in counted if c is not None]
+
+        def effect(white, counted=counted):
+            return any(core.has_side_effect(c, white) for c in counted)
+        intrinsic = effect(frozenset(all_names))
+        calls = [] if intrinsic else sorted(c for c in all_names if effect(frozenset(all_names - {c})))
+        defs.append([node.name, bool(intrinsic), calls])
+        checks.append((effect, intrinsic, calls))
+    stores = sorted({n.id for n in core.walk(tree, ast.Name(ctx=ast.Store))})
+    other = sorted({n.name for n in core.walk(tree, ast.ClassDef)} | {a.asname or a.name.split(".")[0] for n in core.walk(tree, (ast.Import, ast.ImportFrom)) for a in n.names})
+    classes = {n.name for n in core.walk(tree, ast.ClassDef)}
+    return tree, defs, stores, other, classes, all_names, checks
+
+
+def safecalls_suite(ctx):
+    from pyrefact import constants, parsing
+
+    s = Suite("safecalls")
+    r = ctx.rng("safecalls")
+    srcs = ["def f(x):\n    return g(x)\n\n\ndef g(x):\n    return abs(x)\n\n\nf(1)\n", "def f():\n    return 1\n\n\ndef f():\n    print('x')\n    return 2\n\n\nf()\n",
+            "def format(x):\n    print('fmt', x)\n\n\nformat(1)\n", "def a(x):\n    return b(x)\n\n\ndef b(x):\n    return a(x)\n\n\na(1)\n", "def f(x):\n    return x\n\n\nf = print\nf(1)\n",
+            "from lib import sorted\n\n\ndef g(x):\n    return sorted(x)\n\n\ng([1])\n", "def p(x):\n    return [q(v) for v in x]\n\n\ndef q(v):\n    return v\n\n\ndef q(v):\n    return v + 1\n\n\np([1])\n"]
+    while len(srcs) < ctx.n(500, 6000):
+        srcs.append(gen_callgraph_module(r))
+    reqs, metas = [], []
+    base = sorted(constants.SAFE_CALLABLES)
+    for src in srcs:
+        try:
+            tree, defs, stores, other, classes, all_names, checks = summarise_module(src)
+        except SyntaxError:
+            continue
+        # the summary abstraction itself: under a random whitelist the real answer is "intrinsic, or a listed name is missing"
+        for (effect, intrinsic, calls) in checks:
+            for _ in range(3):
+                white = frozenset(n for n in all_names if r.random() < 0.7)
+                if effect(white) != (intrinsic or any(c not in white for c in calls)):
+                    s.disagreements.append({"src": src, "what": "has_side_effect on the statements of a definition is not 'an effect of its own, or a call of a name outside the whitelist' (summary abstraction of the harness)"})
+                    break
+        reqs.append({"suite": "safecalls", "base": base, "defs": defs, "stores": stores, "other": other})
+        metas.append((src, tree, classes, defs))
+    answers = ctx.driver.ask(reqs)
+    for (src, tree, classes, defs), ans in zip(metas, answers):
+        s.cases += 1
+        if "names" not in ans:
+            s.disagreements.append({"src": src, "what": "driver refused", "model": ans})
+            continue
+        real = set(parsing.safe_callable_names(tree)) - classes
+        model = set(ans["names"]) - classes
+        if real != model:
+            s.disagreements.append({"src": src, "only_real": sorted(real - model), "only_model": sorted(model - real), "what": "parsing.safe_callable_names differs from the model (names admitted as free of side effects)"})
+        if ans.get("reaches_effect"):
+            s.disagreements.append({"src": src, "names": ans["reaches_effect"], "what": "an admitted name reaches a definition with an effect of its own (contradicts C16.safe_callables_no_effect: model evaluation)"})
+        admitted = {d[0] for d in defs} & model
+        s.count("admitted=%d" % min(len(admitted), 3))
+        if len({d[0] for d in defs}) < len(defs) or admitted:
+            s.nt(src)
+    s.samples.append({"suite": "safecalls", "defs": [["f", False, ["g"]], ["g", False, []]], "names_beyond_builtins": ["f", "g"]})
+    s.note = ("7 hand-written + random modules of 1-6 small functions over 9 names (three of them names of builtins) that call each other, builtins and unknown functions directly, nested, through key= and in comprehensions, "
+              "with redefinitions, rebinding assignments, imports and classes: the per-definition summary is computed with the real has_side_effect / is_blocking (and checked under random whitelists), the fixpoint "
+              "is the model's; admitted names vs parsing.safe_callable_names (class names aside); non-trivial = a name defined twice or a user function admitted")
+    return s
+
+
 def suites(ctx):
     common.import_pyrefact()
-    return [blocking_suite(ctx), exec_suite(ctx), sideeffect_suite(ctx), unreachable_oracle(ctx), position_probe(ctx), pointless_oracle(ctx)]
+    return [blocking_suite(ctx), exec_suite(ctx), sideeffect_suite(ctx), safecalls_suite(ctx), unreachable_oracle(ctx), position_probe(ctx), pointless_oracle(ctx)]
 
 
 def match_known(d, known):
